@@ -153,9 +153,17 @@ class C01(Property):
                 gm.set_auto_ivc_values(p, md)
                 p.run_model()
                 outs, ins = gm.exact_state(md)
+                # compared relative to the largest value the same component produces: its
+                # polynomial terms reach that size, and a small entry is then only known to that
+                # many digits in doubles (seen: 1298.0 for 1298.2126 next to entries of 3e15)
+                cscale = {}
+                for k, v in outs.items():
+                    comp = k.rpartition('.')[0]
+                    cscale[comp] = max([cscale.get(comp, 1.0)] + [abs(float(x)) for x in v])
                 res['converged_to_exact'] = all(
-                    np.allclose(np.asarray(p.get_val(k)).ravel(), [float(x) for x in v],
-                                rtol=1e-9, atol=1e-10) for k, v in outs.items())
+                    np.allclose(np.asarray(p.get_val(k)).ravel(), [float(x) for x in v], rtol=1e-9,
+                                atol=1e-10 + 1e-13 * cscale[k.rpartition('.')[0]])
+                    for k, v in outs.items())
                 J = p.compute_totals(return_format=cfg['return_format'],
                                      driver_scaling=cfg['driver_scaling'])
                 ofs = [v['name'] for v in voi['responses']]
